@@ -182,7 +182,8 @@ def build_mda(case, system, tol_build=None, max_iter_build=None):
         for sub in cfg["seq"]:
             kw = dict(sub["settings"])
             kw["max_mda_iter"] = min(int(kw.get("max_mda_iter", MAX_ITER)), max_iter_build)
-            subs.append(cls[sub["cls"]](discs, tolerance=tol_build, **kw))
+            kw.setdefault("tolerance", tol_build)  # a stage may be built with its own (looser) tolerance
+            subs.append(cls[sub["cls"]](discs, **kw))
         mda = cls["MDASequential"](discs, subs, **common)
     else:
         mda = cls[cfg["cls"]](discs, **common, **cfg["settings"])
@@ -205,7 +206,7 @@ def apply_settings(mda, cfg, tol=None, max_iter=None):
     """
     if cfg["cls"] == "MDASequential":
         for sub_cfg, sub in zip(cfg["seq"], mda.mda_sequence):
-            if tol is not None:
+            if tol is not None and "tolerance" not in sub_cfg["settings"]:
                 sub.settings.tolerance = tol
             if max_iter is not None:
                 sub.settings.max_mda_iter = min(int(sub_cfg["settings"].get("max_mda_iter", MAX_ITER)), max_iter)
@@ -258,16 +259,20 @@ def leaf_scale(leaf, cap):
     return None
 
 
-def claims_convergence(mda, qn_flags):
-    """Whether the MDA itself says it met its tolerance (``qn_flags``: SciPy success flags of this execute)."""
+def claims_convergence(mda, qn_flags, tol=None):
+    """Whether the MDA itself says it met its tolerance (``qn_flags``: SciPy success flags of this execute).
+
+    A stage of a sequence only counts when it met the tolerance requested for the *sequence* (``tol``)."""
     name = type(mda).__name__
     if name == "MDAChain":
         return all(claims_convergence(m, qn_flags) for m in mda.inner_mdas)
     if hasattr(mda, "mda_sequence"):
-        return any(claims_convergence(m, qn_flags) for m in mda.mda_sequence)
+        seq_tol = mda.settings.tolerance
+        return any(claims_convergence(m, qn_flags, seq_tol) for m in mda.mda_sequence)
     if name == "MDAQuasiNewton":
-        return bool(qn_flags) and all(qn_flags)
-    return bool(mda.normed_residual <= mda.settings.tolerance)
+        own = mda.settings.tolerance
+        return bool(qn_flags) and all(qn_flags) and (tol is None or own <= tol)
+    return bool(mda.normed_residual <= (mda.settings.tolerance if tol is None else min(tol, mda.settings.tolerance)))
 
 
 # --------------------------------------------------------------------------- a-priori facts
@@ -309,7 +314,8 @@ def leaf_safe(cls_name, settings, system):
 def sequence_guaranteed(seq, system, tol, max_iter=MAX_ITER):
     """``seq``: list of (class name, settings).  The first guaranteed solver must be reached through safe ones."""
     for cls_name, settings in seq:
-        if leaf_guaranteed(cls_name, settings, system, tol, max_iter):
+        own = settings.get("tolerance")
+        if (own is None or own <= tol) and leaf_guaranteed(cls_name, settings, system, tol, max_iter):
             return True
         if not leaf_safe(cls_name, settings, system):
             return False
@@ -382,6 +388,8 @@ def features(case, system):
         f.append("scaling=" + cfg["scaling"])
     if cfg.get("matrix_type") == "linear_operator":
         f.append("linop")
+    if any("tolerance" in s_["settings"] for s_ in cfg.get("seq", [])):
+        f.append("stage-with-own-tolerance")
     re_ = case.get("reassign")
     if re_:
         f.append("settings-reassigned-" + re_["when"].replace("_", "-") + "="
@@ -824,6 +832,11 @@ def gen_cfg(rng, system):
         first = str(rng.choice(["MDAGaussSeidel", "MDAJacobi"]))
         k1 = int(rng.choice([1, 2, 3, 5, 300]))
         fst = {"max_mda_iter": k1}
+        if rng.random() < 0.5:
+            # the first stage is built with its own loose tolerance; the sequence is judged against its own one
+            fst["tolerance"] = float(rng.choice([1e-1, 1e-2, 1e-3]))
+            if rng.random() < 0.5:
+                fst["max_mda_iter"] = int(rng.choice([20, 50, 300]))
         if first == "MDAJacobi":
             fst["n_processes"] = 1
         pool = ["MDAJacobi", "MDAGaussSeidel"] + (["MDANewtonRaphson", "MDAQuasiNewton"] if in_cycles else [])
@@ -1069,6 +1082,31 @@ def directed_cases():
             ist = {"n_processes": 1, "method": meth, "use_gradient": grad}
             add(spec, [0, 1], {"cls": "MDAChain", "settings": {"inner_mda_name": "MDAQuasiNewton", "n_processes": 1,
                                                               "inner_mda_settings": ist}}, tol=1e-12, inputs=inputs)
+    # (k) MDASequential whose first stage is built with its own loose tolerance (and cap), last stage tight: the
+    # returned couplings must meet the tolerance requested for the sequence
+    lin2 = {"n": 2, "kind": "directed-linear-2-cycle", "nonlinear": False, "L": 0.5, "x_size": 1, "disciplines": [
+        _lin_disc(0, ["x", "y1"], [1.0, 0.5], 1.0, f=[1.0, 1.0]),
+        _lin_disc(1, ["x", "y0"], [-1.0, 0.4], 2.0)]}
+    for spec, order, seconds in ((lin2, [0, 1], ("MDANewtonRaphson", "MDAJacobi", "MDAGaussSeidel", "MDAQuasiNewton")),
+                                 (twoc, [0, 1, 2, 3], ("MDAJacobi", "MDAGaussSeidel", "MDANewtonRaphson")),
+                                 (mixed, [0, 1, 2, 3], ("MDAJacobi", "MDAGaussSeidel"))):
+        for first in ("MDAGaussSeidel", "MDAJacobi"):
+            for second in seconds:
+                for loose, cap_ in ((1e-1, 50), (1e-2, 300), (1e-3, 5)):
+                    for scaling in (None, "no_scaling"):
+                        fst = {"tolerance": loose, "max_mda_iter": cap_}
+                        sst = {}
+                        if first == "MDAJacobi":
+                            fst["n_processes"] = 1
+                        if second in ("MDAJacobi", "MDANewtonRaphson", "MDAQuasiNewton"):
+                            sst["n_processes"] = 1
+                        if second == "MDAQuasiNewton":
+                            sst["method"] = "broyden1"
+                        c = {"cls": "MDASequential", "settings": {},
+                             "seq": [{"cls": first, "settings": fst}, {"cls": second, "settings": sst}]}
+                        if scaling:
+                            c["scaling"] = scaling
+                        add(spec, list(order), c)
     # (j) settings given loosely to the constructor and re-assigned before the first / the second execution; the
     # composed MDAs must hand the new values to their inner solvers (documented cascade)
     x2b = {"x": [1.45]}
@@ -1150,6 +1188,9 @@ def execute_case(case, rep, sample=False):
         rep.count("cases_with_permuted_list")
     if case.get("reassign"):
         rep.count("cases_with_settings_reassigned_after_construction")
+    if any("tolerance" in s_["settings"] for s_ in cfg.get("seq", [])):
+        rep.count("sequences_with_a_stage_built_with_its_own_loose_tolerance")
+        rep.count("own_tolerance_stage_then:" + cfg["seq"][-1]["cls"])
     if sample:
         rep.sample({"kind": case["spec"]["kind"], "n": case["spec"]["n"], "nonlinear": case["spec"]["nonlinear"],
                     "L": case["spec"]["L"], "order": case["order"], "cfg": cfg, "tol": case["tol"],
